@@ -335,8 +335,11 @@ func (en *DefaultEngine) runFirst(ctx context.Context) (bool, error) {
 	en.ca.Push()
 	rs := resource.NewMenuResource()
 	rs.AddLocalFunc("_first", en.first)
+	// the excursion to the first function keeps the page index of the session's position
+	idx := en.st.SizeIdx
 	en.st.Down("_first")
 	defer en.ca.Pop()
+	defer func() { en.st.SizeIdx = idx }()
 	defer en.st.Up()
 	defer en.st.ResetFlag(state.FLAG_TERMINATE)
 	defer en.st.ResetFlag(state.FLAG_DIRTY)
